@@ -64,6 +64,7 @@ MenuRetry == Installs({"cA", "cC"}, B, F, F, F, F) \cup Upgrades({"cA", "cB", "c
 \* fault family (C03): atomic x cleanup x no-hooks
 MenuFault == Installs({"cA", "cH"}, B, B, B, F, F) \cup Upgrades({"cB", "cI", "cC"}, B, B, {0}, B, F, F)
              \cup Rollbacks({0, 1}, {0}, B, B, F) \cup Uninstalls(F, F, F)
+             \cup UpInstalls({"cA", "cH"}, B, F, F, F, F)          \* upgrade --install [--atomic] (command line only)
 \* dry-run family (C06)
 MenuDry == Installs({"cA", "cH"}, B, B, B, B, B) \cup CRDInstalls(B, B, B, B) \cup Upgrades({"cR"}, F, F, {0}, F, F, B) \cup Upgrades({"cB", "cI"}, B, B, {0, 1}, B, B, B)
            \cup Rollbacks({0, 1}, {0, 1}, B, F, B) \cup Uninstalls(B, B, B)
